@@ -112,7 +112,15 @@ def job_external_type(job):
         got = space.get('p').external_type.name
         integral = all(Fraction(x).denominator == 1 for x in vals)
         want = 'INTEGER' if (job.get('auto_cast') is not False and integral) else 'FLOAT'
-        return {'external_type': got, 'oracle': want}, got != want
+        res = {'external_type': got, 'oracle': want}
+        # what a client reads for each stored feasible value
+        from vizier.service import pyvizier as vz
+        sc = _study_config(space)
+        shown = [outcome(lambda v=v: sc._pytrial_parameters(vz.Trial(parameters={'p': v}))['p']) for v in vals]
+        res['stored'] = [repr(v) for v in vals]
+        res['presented'] = [repr(o.get('value')) if o['raised'] is None else o['raised'] for o in shown]
+        res['presented_equals_stored'] = [o['raised'] is None and same_number(o['value'], v) for o, v in zip(shown, vals)]
+        return res, got != want or not all(res['presented_equals_stored'])
     if b == 'bool':
         space.root.add_bool_param('p')
         got = space.get('p').external_type.name
